@@ -341,7 +341,9 @@ def appendHead (s : Sim) (status n : Nat) : Sim :=
 
 /-- `send_response` / `send_error_response` (l.459, l.509) -/
 def sendResponse (s : Sim) (status : Nat) (kind : RKind) (c m : Nat) (fromPop : Bool) : Sim :=
-  let cu := closeUnread s
+  -- `this.messages.is_empty() && should_close_for_unread_payload(..)`: with queued requests the
+  -- payload slot belongs to a later request
+  let cu := qlen s = 0 && closeUnread s
   let connKA := if cu then false else s.connKA
   let hl := headLen status kind (c * m) (!connKA)
   let hasBody := match kind with | .empty => false | .nobody => false | _ => true
@@ -374,6 +376,10 @@ def parseError (s : Sim) (status : Nat) (e : String) : Sim :=
 def decodeLoop : Nat → Sim → Bool → Sim × Bool
   | 0, s, u => (s, u)
   | fuel + 1, s, updated =>
+    -- `let in_flight_ctx = this.codec.encode_ctx()`: decoding a head overwrites the context the
+    -- in-flight response needs; it is restored when the request is queued, and a queued request
+    -- brings its own context back when it is popped
+    let inFlightKA := s.connKA
     let (o, s) := codecDecode s
     match o with
     | .item h b =>
@@ -389,7 +395,7 @@ def decodeLoop : Nat → Sim → Bool → Sim × Bool
       let s := emit s (.dec (.item h (match b with | .none => false | _ => true)))
       let s := match s.st with
         | .none => handleRequest s rid
-        | _ => pushMsg s (.item rid)
+        | _ => pushMsg { s with connKA := inFlightKA } (.item rid)
       decodeLoop fuel s true
     | .chunk f n =>
       match s.plOwner with
@@ -420,10 +426,9 @@ def decodeLoop : Nat → Sim → Bool → Sim × Bool
     | .tooLarge => (parseError (emit s (.dec (.needMore 0))) 431 "toolarge", updated)
     | .bad => (parseError (emit s (.dec .bad)) 400 "parse", updated)
     | .ioErr =>
-      -- `client_disconnected` (l.337)
-      let s := emit s (.dec .ioErr)
-      let s := ownerSetErr s false
-      ({ s with rdDisc := true, wrDisc := true, plOwner := none, err := some "io" }, updated)
+      -- malformed chunk framing is `io::ErrorKind::InvalidInput`, which `poll_request` routes to the
+      -- malformed-request arm (400, EncodingCorrupted, READ_DISCONNECT), not to `client_disconnected`
+      (parseError (emit s (.dec .bad)) 400 "parse", updated)
 
 /-- `poll_request` (l.878) -/
 def pollRequest (s : Sim) : Sim × Bool :=
@@ -472,7 +477,8 @@ def pollResponse : Nat → Sim → Sim × PollResp
         match m with
         | .item rid =>
           let s := emit s (.pop none)
-          pollResponse fuel { s with calls := s.calls + 1, st := .svc rid false }
+          -- `this.codec.set_encode_ctx(ctx)`: every request of the harness is HTTP/1.1 keep-alive
+          pollResponse fuel { s with calls := s.calls + 1, st := .svc rid false, connKA := true }
         | .error status => pollResponse fuel (sendResponse s status .empty 0 0 true)
       else
         ({ s with keepAlive := s.plOwner.isNone && s.connKA }, .doNothing)
